@@ -38,6 +38,22 @@ def probe_suite():
     out['format4'] = sqlparse.format('select 1; select 2', output_format='php', reindent=True, comma_first=True,
                                      wrap_after=5, indent_tabs=True)
     out['bytes'] = [str(s) for s in sqlparse.parse('select é'.encode('utf-8'))]
+    # the same text again right after a partially consumed run on it (anything cached per input must be complete)
+    # (an invariant checked inside the probe, because the reference interpreter would run the same sequence)
+    t1, t2 = words + ' again', PROBE + ';select 3'
+    plain_tokens = list(lexer.tokenize(t1))
+    plain_parse = [str(s) for s in sqlparse.parse(t2)]
+    list(lexer.tokenize('something else'))
+    g = lexer.tokenize(t1)
+    next(g)
+    again_tokens = list(lexer.tokenize(t1))
+    sqlparse.parse('something else')
+    g2 = sqlparse.parsestream(t2)
+    next(g2)
+    again_parse = [str(s) for s in sqlparse.parse(t2)]
+    out['invariant_same_text_after_partial_run'] = (again_tokens == plain_tokens and again_parse == plain_parse
+                                                    and sqlparse.split(t2) == [p.strip() for p in plain_parse])
+    del g, g2
     # every filter alone, on inputs where it has something to do
     out['strip_comments'] = sqlparse.format('select a/*c*/b, c /* d */ from t -- e\nwhere x/* f */=1', strip_comments=True)
     out['spaces'] = sqlparse.format('select a+b, c from t where c=d and e<>f', use_space_around_operators=True)
@@ -65,6 +81,9 @@ def probe_diff(ref):
         got = json.loads(json.dumps(probe_suite()))
     except Exception as e:  # noqa
         return f'probe suite raised {oracles.crash_site(e)}: {e!r:.100}'
+    for k in got:
+        if k.startswith('invariant_') and got[k] is not True:
+            return f'{k} is {got[k]!r}'
     for k in ref:
         if got.get(k) != ref[k]:
             return f'{k}: {json.dumps(got.get(k))[:160]} != {json.dumps(ref[k])[:160]}'
@@ -142,6 +161,19 @@ def _ops():
         next(g)
         held.append(g)
 
+    def probe_texts_abandoned():
+        # start, advance once and leave every streaming entry point on exactly the texts the probes use
+        words = 'select oracle_word pivot mysql_word engine plpgsql_word conflict hql_word cluster msaccess_word ' \
+                'distinctrow snowflake_word account bigquery_word tablesample window map foo'
+        g1 = lexer.tokenize(words + " 'a' \"b\" /* c */ -- d\n $$e$$ 1.5 ?")
+        next(g1)
+        g2 = sqlparse.parsestream(PROBE)
+        next(g2)
+        g3 = sqlparse.parsestream(io.StringIO(PROBE))
+        next(g3)
+        held.extend([g1, g2])
+        del g3
+
     def reconfigure_and_reset():
         lx = lexer.Lexer.get_default_instance()
         lx.clear()
@@ -173,7 +205,7 @@ def _ops():
         ('format-aligned', format_aligned), ('format-python', format_python), ('format-invalid', format_invalid),
         ('format-operators-ws', format_operators_ws), ('format-strip-comments-ws', format_strip_comments_ws),
         ('stream-abandoned', stream_abandoned),
-        ('stream-suspended', stream_suspended), ('reconfigure-and-reset', reconfigure_and_reset),
+        ('stream-suspended', stream_suspended), ('probe-texts-abandoned', probe_texts_abandoned), ('reconfigure-and-reset', reconfigure_and_reset),
         ('cli-main', cli_main), ('many-statements', many_statements)])
 
 
